@@ -606,6 +606,31 @@ def correspond(ctx):
             ctx.disagree({"coverage": sorted(want - hit)}, sorted(want), sorted(hit), "model locations that no real kill point maps to")
     except Exception as e:
         ctx.notes.append(f"coverage query failed: {e}")
+    overlapping_launches(ctx)
+
+
+def overlapping_launches(ctx):
+    """"a later launch of the same job script executes the body exactly when no success marker exists" for launches that
+    OVERLAP: 2-3 real processes of one job script started within 0-0.2 s of each other (the machinery of C05's races): a
+    launch that queued on the run lock while the first one was in its body must find the marker when it gets the lock."""
+    from . import c05
+    rng = ctx.rng
+    n = ctx.scale(6, 30)
+    cases = []
+    for i in range(n):
+        k = rng.choice([2, 3])
+        cases.append({"id": f"c10race{i}", "n": k, "x": 100 + i, "hold": rng.choice([0.3, 0.5]), "fail_first": False,
+                      "offsets": [0.0] + [round(rng.choice([0.05, 0.1, 0.2]), 3) for _ in range(k - 1)]})
+    outs = c05.run_worker_cases(ctx, "race", cases, parallel=ctx.scale(6, 12))
+    for case, o in zip(cases, outs):
+        if o.get("error"):
+            ctx.count("overlap_errors", o["error"][:60])
+            continue
+        ctx.case({"overlapping_launches": case}, True)
+        ctx.count("overlapping_launches", case["n"])
+        for key, what in c05.race_monitor(case, o):
+            if key in ("body-run-again-after-success", "bodies-overlap", "success-without-marker"):
+                ctx.monitor_fail(f"overlapping-launch:{key}", f"{what} [overlapping launches {json.dumps(case)}]", {"race": case})
 
 
 def search(ctx):
